@@ -102,6 +102,9 @@ func runErrorInjection(prop string, w *World, pre *Snapshot, target Op, only *In
 	return oc
 }
 
+// faultSetupProfile is the profile of the setup histories of the error-injection tests.
+var faultSetupProfile = &claimSetup
+
 func runFaultErrTest(t *testing.T, prop, test string, gen func(rt *rapid.T, w *World, pre *Snapshot) Op) {
 	if err := StraceAvailable(); err != nil {
 		t.Skipf("INFRA: %v", err)
@@ -130,7 +133,11 @@ func runFaultErrTest(t *testing.T, prop, test string, gen func(rt *rapid.T, w *W
 		pre, _ := TakeSnapshot(w.Root)
 		nsetup := between(rt, 2, 8, "setup.n")
 		for i := 0; i < nsetup; i++ {
-			op := genOp(rt, w, pre, claimSetup)
+			op := genOp(rt, w, pre, *faultSetupProfile)
+			if i == 0 && pct(rt, 20, "setup.big") {
+				// a log that no reader gets in one read(2)
+				op = Op{Kind: "new_task", Mode: "bodystdin", Title: sp(w.UniqueTitle("big")), Body: sp(bigBody(between(rt, 66000, 250000, "setup.bigsize")))}
+			}
 			op.N = i
 			out := w.Step(pre, op)
 			if out.Post == nil || out.Abort != "" || len(out.Viol) > 0 {
